@@ -979,6 +979,14 @@ def invoke(case, side):
         obs["nt_before"] = nt_before
         mode, name = case["mode"], case["name"]
         recipe = case.get("recipe")
+        watch_setitem = side == "tc" and not outer and mode == "op" and name == "__setitem__"
+        if watch_setitem:
+            from . import c15_extra
+            obs["stores_pre"] = c15_extra.stores(tc)
+            v = args[1] if len(args) > 1 else None
+            obs["value"] = ["tc", type(v) is type(tc), c15_extra.stores(v)] if _is_tc(v) else (
+                ["td", sorted(v.keys())] if isinstance(v, t["Base"]) else ("tensor" if isinstance(v, torch.Tensor) else (
+                    "number" if isinstance(v, (int, float)) else "other")))
         if recipe:
             res = run_recipe(recipe, case, target, args, kwargs, mat, tmp, side)
         elif mode == "call":
@@ -1018,6 +1026,8 @@ def invoke(case, side):
                 res = [type(x).__name__ for x in pt.tree_leaves(target)]
         else:
             raise ValueError(mode)
+        if watch_setitem:
+            obs["stores_post"] = c15_extra.stores(tc)
         ctx = {"ids": ids}
         obs["res"] = canon(res, ctx)
         obs["post"] = canon(target, {"ids": {}})
@@ -1235,6 +1245,10 @@ def judge(case, o_tc, o_td, o_td2):
         if o_tc["status"] == "raise":
             return "ok", [], flags + ["both-raise"]
         a0 = (case.get("args") or [None])[0]
+        ntk = [k for k, _ in (o_tc.get("nt_before") or [])]
+        if o_td.get("exc") == "KeyError" and isinstance(a0, list) and len(a0) == 2 and a0[0] == "lit" and a0[1] in ntk and not outer:
+            # the key names a field held in _non_tensordict (None ...): the underlying tensordict does not know it
+            return "ok", [], flags + ["field-outside-the-tensordict"]
         if case["name"] in ("update", "update_", "update_at_") and isinstance(a0, list) and a0 and (a0[0] == "dct" or a0[:2] == ["like", "dict"]):
             # a plain dict is first converted by the class's own typed constructor (from_dict with the instance's batch size)
             return "ok", [], flags + ["typed-dict-conversion"]
@@ -1398,4 +1412,7 @@ def abstract_pair(case, o_tc, o_td):
     post = o_td.get("post")
     selfkeys = sorted(top_keys(post) or []) if isinstance(post, list) else []
     nt = [[k, "none" if v == ["PY", "None"] else "val"] for k, v in (o_tc.get("nt_before") or [])]
-    return {"r": r, "t": t, "selfkeys": selfkeys, "nt": nt}
+    out = {"r": r, "t": t, "selfkeys": selfkeys, "nt": nt}
+    if "stores_post" in o_tc:
+        out["setitem"] = {"pre": o_tc["stores_pre"], "post": o_tc["stores_post"], "value": o_tc["value"]}
+    return out
